@@ -168,6 +168,29 @@ def handle (op : String) (args : List String) (impl : String) : Option Verdict :
           | _ => false
       | _ => false
     return ⟨model, ok, s!"watch:{kind}:n={min n 4}:ticks={min sc.length 4}:closed={(watch sc).isSome}:pendingAtSomeTick={sc.any (·.any (· ≠ .exec))}"⟩
+  | "sigwatch", [kind, gas, ns, script] => some <| Id.run do
+    let some ns := natList ns | return bad
+    let some sc := (items script "/").mapM (fun t => (chars t).mapM ansOf) | return bad
+    if sc.any (·.length ≠ ns.length) || ns.isEmpty then return bad
+    let g := if kind = "evm" then gas else "-"
+    let showSub := fun (x : List Nat) => joinOr (x.map toString) "," ++ "/" ++ g
+    let model := match watch sc with
+      | some t => s!"closed@{t}|-|ok"
+      | none => "submitted|" ++ joinOr ((submitAfterTicks sc ns).map showSub) ";" ++ "|ok"
+    let ok := match impl.splitOn "|" with
+      | [r, subs, inputs] =>
+        inputs == "ok" &&
+        (if r == "submitted" then
+          (match (items subs ";").mapM (fun it => match it.splitOn "/" with
+              | [xs, gg] => if gg == g then natList xs else none
+              | _ => none) with
+            | some ss => decide (PSubmit ns ss) && decide (PWatch sc none)
+            | none => false)
+        else match r.splitOn "@" with
+          | ["closed", t] => subs == "-" && (match t.toNat? with | some t => decide (PWatch sc (some t)) | none => false)
+          | _ => false)
+      | _ => false
+    return ⟨model, ok, s!"sigwatch:{kind}:n={min ns.length 4}:ticks={min sc.length 3}:closed={(watch sc).isSome}:partly={sc.any fun v => v.any (· = .exec) && v.any (· ≠ .exec)}"⟩
   | "submit", [kind, outcome, gas, ns] => some <| Id.run do
     let some ns := natList ns | return bad
     let g := if kind = "evm" then gas else "-"
